@@ -164,7 +164,9 @@ impl super::Authorizer {
 
             for fact in &facts {
                 let fact = proto_fact_to_token_fact(fact)?;
-                //let fact = Fact::convert_from(&fact, &symbols)?.convert(&mut authorizer.symbols);
+                // generated facts must only refer to symbols of the snapshot: dump() and
+                // the printers rely on it
+                crate::builder::Fact::convert_from(&fact, &authorizer.symbols)?;
                 authorizer.world.facts.insert(&origin, fact);
             }
         }
